@@ -19,12 +19,10 @@ def s2l(s):
 
 def record(path, data, mtime, header, ims_cls, method, maxread):
     ims = None
-    if ims_cls == 'older':
-        ims = email.utils.formatdate(int(mtime) - 10, usegmt=True)
-    elif ims_cls == 'equal':
-        ims = email.utils.formatdate(int(mtime), usegmt=True)
-    elif ims_cls == 'newer':
-        ims = email.utils.formatdate(int(mtime) + 10, usegmt=True)
+    if ims_cls in ('older', 'equal', 'newer'):
+        ts = int(mtime) + {'older': -10, 'equal': 0, 'newer': 10}[ims_cls]
+        ims = spell_date(ts, record.spelling)
+        record.spelling = (record.spelling + 1) % 7
     elif ims_cls == 'junk':
         ims = 'yesterday-ish'
     out = {}
@@ -55,6 +53,27 @@ def record(path, data, mtime, header, ims_cls, method, maxread):
             'status': status, 'cr': cr, 'cl': cl, 'bodyLen': len(body), 'bodyOff': off, 'chunks': [len(c) for c in chunks],
             'maxread': maxread, 'hdrs': canon(headers), 'headHdrs': canon(out['HEAD'][1]),
             'headBody': sum(len(c) for c in out['HEAD'][2])}
+
+
+record.spelling = 0
+
+
+def spell_date(ts, how):
+    """The same instant in the date spellings RFC 7231 allows / clients use: GMT, numeric zones, a named zone, rfc850, asctime."""
+    import datetime
+    if how == 0:
+        return email.utils.formatdate(ts, usegmt=True)
+    if how in (1, 2, 3):
+        off = {1: -5, 2: 2, 3: 9}[how]
+        d = datetime.datetime.fromtimestamp(ts, tz=datetime.timezone(datetime.timedelta(hours=off)))
+        return email.utils.format_datetime(d)                       # 'Tue, 29 Sep 2026 01:00:00 -0500'
+    if how == 4:
+        d = datetime.datetime.fromtimestamp(ts, tz=datetime.timezone(datetime.timedelta(hours=-4)))
+        return d.strftime('%a, %d %b %Y %H:%M:%S') + ' EDT'
+    d = datetime.datetime.fromtimestamp(ts, tz=datetime.timezone.utc)
+    if how == 5:
+        return d.strftime('%A, %d-%b-%y %H:%M:%S GMT')               # rfc850
+    return d.strftime('%a %b %d %H:%M:%S %Y').replace(' 0', '  ', 1) if d.day < 10 else d.strftime('%a %b %d %H:%M:%S %Y')   # asctime
 
 
 def run(chk):
